@@ -8,7 +8,7 @@
 (* delivers exactly Sem(overlay) inside the box.                              *)
 EXTENDS Pipeline, Json
 
-CONSTANTS Universe, NSources, CodecLists, SubBox
+CONSTANTS Universe, NSources, CodecLists, SubBox, Nested
 
 VARIABLES pres, codecs
 vars == <<pres, codecs>>
@@ -37,7 +37,12 @@ CovList(tiles) == \* bounding box per level, as a list of level boxes (what an i
     [j \in 1..Len(ls) |-> LET h == LevelHull(tiles, ls[j]) IN <<ls[j], h[1], h[2], h[3], h[4]>>]
 
 Sources == [k \in 1..NSources |-> [tiles |-> SrcTiles(k), tc |-> codecs[k], cov |-> CovList(SrcTiles(k))]]
-Tree == [op |-> "overlay", srcs |-> [k \in 1..NSources |-> [op |-> "leaf", i |-> k]]]
+\* Nested = 1 (three sources): the first source is itself an overlay of sources 1 and 2 -- its advertised coverage is the
+\* hull of both, so it announces tiles it does not have
+Tree == IF Nested = 1
+        THEN [op |-> "overlay", srcs |-> << [op |-> "overlay", srcs |-> << [op |-> "leaf", i |-> 1], [op |-> "leaf", i |-> 2] >>],
+                                            [op |-> "leaf", i |-> 3] >>]
+        ELSE [op |-> "overlay", srcs |-> [k \in 1..NSources |-> [op |-> "leaf", i |-> k]]]
 
 Emit(rec) == PrintT(<<"REPLAY", ToJson(rec)>>)
 Init ==
